@@ -42,12 +42,20 @@ def targets_for(rng, hist, info, cmd, rows):
             pool += [l + "@head", l + "@heads", l + "@+1", l + "@" + rng.choice(ids)]
         pool += [i[: max(1, len(i) - 1)] for i in ids if len(i) > 4][:3]
         pool += [rng.choice(ids) + "-1", rng.choice(ids) + "+2", rng.choice(ids) + "+0"]
+        # a branch may be named by a revision id, full or partial, as well as by a label (docs: `ae10@head`)
+        for i in rng.sample(ids, min(2, len(ids))):
+            sel = [i] + ([i[:-1], i[:4]] if len(i) > 4 else [])
+            pool += [rng.choice(sel) + "@head", rng.choice(sel) + "@heads", rng.choice(sel) + "@+1",
+                     rng.choice(sel) + "@" + rng.choice(ids)]
     elif cmd == "downgrade":
         pool = ["base", "-1", "-2", "-3"] + ids + [i + "-1" for i in ids[:3]]
         for l in labels:
             pool += [l + "@base", l + "@-1", l + "@" + rng.choice(ids), l + "@" + rng.choice(ids) + "-1"]
         pool += [i[: max(1, len(i) - 1)] for i in ids if len(i) > 4][:3]
         pool += [rng.choice(ids) + "+1", rng.choice(ids) + "-2"]
+        for i in rng.sample(ids, min(2, len(ids))):
+            sel = [i] + ([i[:-1], i[:4]] if len(i) > 4 else [])
+            pool += [rng.choice(sel) + "@base", rng.choice(sel) + "@-1", rng.choice(sel) + "@" + rng.choice(ids)]
     else:
         pool = [["heads"], ["base"]] + [[i] for i in ids]
         if len(ids) >= 2:
@@ -56,6 +64,9 @@ def targets_for(rng, hist, info, cmd, rows):
             pool += [rng.sample(ids, 3)]
         for l in labels:
             pool += [[l + "@head"], [l + "@heads"]]
+        for i in rng.sample(ids, min(2, len(ids))):
+            sel = [i] + ([i[:-1], i[:4]] if len(i) > 4 else [])
+            pool += [[rng.choice(sel) + "@head"], [rng.choice(sel) + "@heads"]]
         # destinations named by a partial id (unique prefixes resolve, others are refused), alone
         # and next to a full id
         longs = [i for i in ids if len(i) > 4]
